@@ -220,3 +220,53 @@ def replay_file(path):
         return 1 if out else 0
     print('  no executable replay: obligation %s; solver output: %s' % (p.get('obligation'), p.get('solver_verdicts')))
     return 1
+
+
+def prove_paths(res, qualname, table, posts, default_raises=True):
+    """Tier E: enumerate all paths of the real function and discharge every path postcondition.
+    Returns the list of failed obligations (already recorded as violations unless `defer`)."""
+    from pyvc import effects
+    from pyvc.frontend import clear_cache, TargetMissing, OutOfSubset
+    clear_cache()
+    t0 = time.time()
+    try:
+        paths, obls, notes = effects.verify_paths(qualname, table, posts, repo=REPO, default_raises=default_raises)
+    except TargetMissing as exc:
+        res.functions[qualname] = 'proof-lost'
+        res.notes.append('%s: proof-lost (%s) -- the bounded stand-in decides for this run' % (qualname, exc))
+        return None
+    except OutOfSubset as exc:
+        res.functions[qualname] = 'out-of-subset'
+        res.notes.append('%s: out-of-subset (%s) -- the bounded stand-in decides for this run' % (qualname, exc))
+        return None
+    if not obls:
+        raise CheckerDefect('no path obligations generated for %s' % qualname)
+    if not any(p.outcome == 'return' for p in paths):
+        raise CheckerDefect('no returning path found for %s (vacuous)' % qualname)
+    res.obligations += len(obls)
+    failed = [o for o in obls if not o.ok]
+    res.discharged += len(obls) - len(failed)
+    res.solver_seconds += time.time() - t0
+    res.backends['z3-5.1.0-api(qf)'] = res.backends.get('z3-5.1.0-api(qf)', 0) + len(obls) - len(failed)
+    res.functions[qualname] = 'proved' if not failed else 'failed'
+    res.coverage.setdefault('paths', {})[qualname] = {'paths': len(paths), 'returning': sum(1 for p in paths if p.outcome == 'return'),
+                                                      'raising': sum(1 for p in paths if p.outcome == 'raise')}
+    res.sample({'obligation': obls[0].id, 'text': obls[0].text, 'detail': obls[0].detail, 'path': obls[0].trail[-3:]})
+    for n in notes:
+        res.notes.append('%s: %s' % (qualname, n))
+    for k, v in table.items():
+        res.assumptions.append('assumed effect contract: %s -> %s' % (k, {a: b for a, b in v.items()}))
+    res.assumptions.append('Tier E: values are opaque terms with interpreted truthiness/equality/small integers; every call not declared quiet may raise; '
+                           'loops over unknown iterables are abstracted to 0..2 iterations; KeyboardInterrupt/SystemExit are modelled as exceptions '
+                           'not caught by `except Exception`; a process kill is covered by the path statement (status 0 is produced only by a return)')
+    return failed
+
+
+def report_path_failures(res, failed, witness=None):
+    for o in failed[:4]:
+        payload = {'obligation': o.id, 'function': o.func, 'text': o.text, 'detail': o.detail, 'path': o.trail, 'kind': 'failed-path-obligation'}
+        if witness:
+            payload['witness'] = witness
+        res.violation('path obligation %s fails: %s; path: %s%s' % (o.id, o.detail, ' / '.join(o.trail[-4:]),
+                                                                   ('; native witness: %s' % witness) if witness else ''),
+                      payload, no_input=witness is None)
